@@ -3,6 +3,26 @@ package timer
 // C19 (timer.Async part) — functions run exactly once each, one at a time, in
 // FIFO order, under all schedules of the producers and the drainer.
 
+// a second wave after the queue has drained (and, with the scaled threshold,
+// has been shrunk): functions submitted later still run
+func verifHarness_C19_async_after_drain() {
+	t := New("verif")
+	verifSched(true, 1)
+	ran := map[int]int{}
+	for wave := 0; wave < 2; wave++ {
+		for i := 0; i < 3; i++ {
+			id := wave*3 + i
+			t.Async(func() { ran[id]++ })
+		}
+		verifJoin()
+	}
+	for id := 0; id < 6; id++ {
+		verifAssertD(ran[id] == 1, "async-function-runs-exactly-once", "after-drain")
+	}
+	verifAssertD(len(t.asyncList) == 0, "async-queue-empty-at-quiescence", "after-drain")
+	verifAssert(false, "witness")
+}
+
 func verifHarness_C19_async_fifo() {
 	verifBound("producers", 2)
 	verifBound("functions_each", 2)
